@@ -5338,13 +5338,19 @@ class Restreamed(Subconstruct):
     def _parse(self, stream, context, path):
         stream2 = RestreamedBytesIO(stream, self.decoder, self.decoderunit, self.encoder, self.encoderunit)
         obj = self.subcon._parsereport(stream2, context, path)
-        stream2.close()
+        try:
+            stream2.close()
+        except ValueError as e:
+            raise StreamError(str(e), path=path)
         return obj
 
     def _build(self, obj, stream, context, path):
         stream2 = RestreamedBytesIO(stream, self.decoder, self.decoderunit, self.encoder, self.encoderunit)
         buildret = self.subcon._build(obj, stream2, context, path)
-        stream2.close()
+        try:
+            stream2.close()
+        except ValueError as e:
+            raise StreamError(str(e), path=path)
         return obj
 
     def _sizeof(self, context, path):
